@@ -121,10 +121,15 @@ def check_case(ctx, case):
             fail("(b)location", "location line %r; expected file %s, a line in [%d, %d], scope %r" % (lines[0], path, start, end, scope))
             return
         rest = "\n".join(lines[1:])
-        if not rest.startswith("the-desc: "):
-            fail("(b)description", "description missing: %r" % rest[:60])
-            return
-        rest = rest[len("the-desc: "):]
+        if lay["kind"] in LY.NO_DESCRIPTION:
+            if rest.startswith("the-desc"):
+                fail("(b)description", "a description is shown although the contract has none: %r" % rest[:60])
+                return
+        else:
+            if not rest.startswith("the-desc: "):
+                fail("(b)description", "description missing: %r" % rest[:60])
+                return
+            rest = rest[len("the-desc: "):]
         # (c) the reported condition text: longest prefix that parses to the generated expression
         want = OR.dump(ctext)
         found = False
